@@ -22,6 +22,8 @@ pub mod c21;
 pub mod c22;
 pub mod c26;
 pub mod c28;
+pub mod c32;
+pub mod c33;
 pub mod c36;
 pub mod c37;
 
@@ -55,6 +57,8 @@ pub fn all() -> Vec<CheckDef> {
         CheckDef { id: "C39", shards: one, run: c39::run, replay: Some(c39::replay) },
         CheckDef { id: "C36", shards: one, run: c36::run, replay: Some(c36::replay) },
         CheckDef { id: "C37", shards: four, run: c37::run, replay: Some(c37::replay) },
+        CheckDef { id: "C32", shards: one, run: c32::run, replay: Some(c32::replay) },
+        CheckDef { id: "C33", shards: one, run: c33::run, replay: Some(c33::replay) },
         CheckDef { id: "C28", shards: one, run: c28::run, replay: Some(c28::replay) },
     ]
 }
